@@ -144,6 +144,11 @@ func BuildDriver(env *Env, race bool) (string, error) {
 		args = []string{"build", "-race", "-tags", "verif", "-o", out}
 		e = append(os.Environ(), "GOFLAGS=-mod=mod", "GOPROXY=off", "GOSUMDB=off", "GOTOOLCHAIN=local", "CGO_ENABLED=1")
 	}
+	if alt := os.Getenv("VERIF_DEV_REPO"); alt != "" { // development aid: build against another checkout (seeded changes)
+		mf := filepath.Join(env.Tmp, "alt.mod")
+		os.WriteFile(mf, []byte("module verifharness\n\ngo 1.19\n\nrequire github.com/crillab/gophersat v0.0.0\n\nreplace github.com/crillab/gophersat => "+alt+"\n"), 0o644)
+		args = append(args[:1], append([]string{"-modfile=" + mf}, args[1:]...)...)
+	}
 	args = append(args, "./cmd/vdrive")
 	cmd := exec.Command("go", args...)
 	cmd.Dir = filepath.Join(env.Root, "harness")
